@@ -41,6 +41,24 @@ def run(prop, tier, seed):
             raise MachineryError('Locks_dev_%s was expected to violate %s, got %s %s' % (name, inv, res.violation, res.error))
         rej.append('%s violates %s' % (name, inv))
     out.notes['design_deviations_rejected'] = rej
+    # mutual exclusion of Lock and RLock for an ARBITRARY set of contenders: a machine-checked TLAPS proof
+    import os, shutil, subprocess, tempfile
+    from .. import SPEC
+    tlapm = shutil.which('tlapm')
+    if tlapm:
+        d = tempfile.mkdtemp(prefix='tlaps-', dir='/dev/shm')
+        try:
+            res_ = []
+            for mod, want in (('LockProof.tla', True), ('LockProofForeign.tla', False)):
+                shutil.copy(os.path.join(SPEC, 'tlaps', mod), d)
+                p_ = subprocess.run([tlapm, '--cleanfp', mod], cwd=d, stdout=subprocess.PIPE, stderr=subprocess.STDOUT, text=True, timeout=900)
+                ok = 'obligations proved' in p_.stdout and 'failed' not in p_.stdout
+                if ok != want:
+                    raise MachineryError('TLAPS %s: expected %s\n%s' % (mod, 'a complete proof' if want else 'an unprovable obligation', p_.stdout[-1200:]))
+                res_.append('%s: %s' % (mod, [l for l in p_.stdout.splitlines() if 'obligations' in l][-1].strip() if ok else 'an obligation fails (as it must)'))
+            out.notes['tlaps_proof'] = res_
+        finally:
+            shutil.rmtree(d, ignore_errors=True)
     dfs, rnd = [], []
     rounds = ['acquire', 'release']
     for kind in ('lock', 'rlock', 'sem'):
